@@ -208,6 +208,22 @@ Definition resolve_pkh_tap (pkh_of xonly_of : N -> N) (a : pinput) (h : N) : opt
                        (find (fun kv => (pkh_of (xonly_of (fst kv)) =? h)%N) (i_tapsigs a))
   end.
 
+(* PsbtInputSatisfier::check_after / check_older (src/psbt/mod.rs): the time-lock answers the
+   satisfier works with.  All numbers are consensus encodings: [seq] is THIS input's nSequence,
+   [n] the lock value of the fragment (bit 22 = 512-second units for relative locks,
+   >= 500_000_000 = time for absolute ones). *)
+Definition seq_final : N := 4294967295.
+Definition locktime_threshold : N := 500000000.
+Definition psbt_check_after (lock_time seq n : N) : bool :=
+  negb (seq =? seq_final)%N                                                  (* enables_lock_time of this input *)
+  && Bool.eqb (lock_time <? locktime_threshold)%N (n <? locktime_threshold)%N   (* same unit *)
+  && (n <=? lock_time)%N.
+Definition psbt_check_older (version seq n : N) : bool :=
+  (2 <=? version)%N                                                          (* BIP68 applies from version 2 on *)
+  && negb (N.testbit seq 31)                                                 (* seq.is_relative_lock_time() *)
+  && Bool.eqb (N.testbit seq 22) (N.testbit n 22)                            (* same unit *)
+  && (N.land n 65535 <=? N.land seq 65535)%N.
+
 Definition txout_eqb (a b : txout) : bool := (to_val a =? to_val b)%N && (to_spk a =? to_spk b)%N.
 
 (* the `expected_spk` block of update_input_with_descriptor; None = UtxoCheck *)
